@@ -202,6 +202,7 @@ func (s *sys) Apply(ev string) error {
 		return s.infra
 	}
 	s.lastEv = ev
+	s.viols = nil // the monitors of earlier events ran when those events were explored
 	w := s.w
 	pullPendBefore, pullLiveBefore := s.dialsOf("origin")
 	inflightBefore := len(pullPendBefore) > 0
